@@ -286,7 +286,7 @@ def _provider_body(L):
     own contribution"""
     rs = [e for e in L.iter_log() if e.label == "resource"]
     ms = [e for e in L.iter_log() if e.label == "Resource.merge"]
-    before = L.iter_pre_locals["default_resource"]
+    before = L.iter_pre_local("default_resource")
     cs = [("provider-asked-once", And(z3.BoolVal(len(rs) == 1), rs[0].args[0] == L.seq.element(L.index) if rs else z3.BoolVal(False)))]
     if ms and not ms[0].raised:
         ok = len(ms) == 1 and bool(rs) and not rs[0].raised
